@@ -194,3 +194,46 @@ Example search_example :
   search [IEntry 1; IRef [[x61]]; IInter 9; IEntry 2; IRef [[x62]]; IDone (mkRes 0 [[x63]] []) [7]] =
   ([IEntry 1; IEntry 2], mkRes 0 [[x63]; [x61]; [x62]] [7]).
 Proof. vm_compute. reflexivity. Qed.
+
+(* ---------- reading a stream to the end, then finishing it ---------- *)
+Lemma hidden_or_entry it : not_done it -> hidden it \/ exists t, it = IEntry t.
+Proof. destruct it; cbn; intros H; try contradiction; [right; eauto|left; exact I|left; exact I]. Qed.
+
+Theorem c10_adapted_read_all its : Forall not_done its -> forall hid r cs cl rs refs sc f7 fuel, Forall hidden hid -> (length its < fuel)%nat ->
+  drain fuel (mkStream Active (Some (mkChan (hid ++ its ++ [IDone r cs]) cl)) rs refs true sc f7) =
+  (filter is_entry its, mkStream Done None (Some (mkRes (rc r) (res_refs r) cs)) (refs ++ flat_map ref_uris hid ++ flat_map ref_uris its) true sc f7).
+Proof.
+  induction 1 as [|it its Hnd _ IH]; intros hid r cs cl rs refs sc f7 fuel Hh Hf.
+  - destruct fuel as [|fuel]; [cbn in Hf; lia|]. cbn [app drain]. rewrite (next_adapted_done hid r cs [] cl rs refs sc f7 Hh).
+    cbn [filter flat_map]. now rewrite app_nil_r.
+  - destruct (hidden_or_entry it Hnd) as [Hit|[t ->]].
+    + (* swallowed by the adapter together with what precedes it *)
+      replace (hid ++ (it :: its) ++ [IDone r cs]) with ((hid ++ [it]) ++ its ++ [IDone r cs]) by (rewrite <- app_assoc; reflexivity).
+      rewrite (IH (hid ++ [it]) r cs cl rs refs sc f7 fuel) by (try (apply Forall_app; split; [assumption|now constructor]); cbn in Hf; lia).
+      assert (E : is_entry it = false) by (destruct it; cbn in Hit; try contradiction; reflexivity).
+      cbn [filter]. rewrite E. f_equal. f_equal. rewrite flat_map_app. cbn [flat_map]. now rewrite app_nil_r, <- !app_assoc.
+    + destruct fuel as [|fuel]; [cbn in Hf; lia|]. cbn [drain app].
+      change (hid ++ IEntry t :: its ++ [IDone r cs]) with (hid ++ IEntry t :: (its ++ [IDone r cs])).
+      rewrite (next_adapted_entry hid t (its ++ [IDone r cs]) cl rs refs sc f7 Hh).
+      pose proof (IH [] r cs cl rs (refs ++ flat_map ref_uris hid) sc f7 fuel (Forall_nil _) ltac:(cbn in Hf; lia)) as E. cbn [app] in E.
+      rewrite E. cbn [filter is_entry flat_map ref_uris app]. now rewrite <- !app_assoc.
+Qed.
+
+(* C10, for Ldap::search and for any EntriesOnly stream read to the end: exactly the entries in order, then Ok(None); finish()
+   returns the server's code and controls with the referral URIs of the reference messages merged in; then Closed; then 80 *)
+Theorem c10_search_collects its r cs : Forall not_done its ->
+  search (its ++ [IDone r cs]) = (filter is_entry its, mkRes (rc r) (res_refs r ++ flat_map ref_uris its) cs).
+Proof. intros H. unfold search, start. rewrite app_length. cbn [length].
+  pose proof (c10_adapted_read_all its H [] r cs true None [] 0%nat false (S (length its + 1)) (Forall_nil _) ltac:(lia)) as E. cbn [app] in E.
+  rewrite E. reflexivity. Qed.
+
+(* the repaired direct stream: every item in order (entries, references, intermediates), then Ok(None) and Done *)
+Theorem c10_direct_read_all its : Forall not_done its -> forall r cs cl rs refs sc fuel, (length its < fuel)%nat ->
+  drain fuel (mkStream Active (Some (mkChan (its ++ [IDone r cs]) cl)) rs refs false sc true) =
+  (its, mkStream Done None (Some (mkRes (rc r) (res_refs r) cs)) refs false sc true).
+Proof.
+  induction 1 as [|it its Hnd _ IH]; intros r cs cl rs refs sc fuel Hf; (destruct fuel as [|fuel]; [cbn in Hf; lia|]); cbn [app drain].
+  - now rewrite next_direct_repaired_done.
+  - rewrite next_direct_repaired_item by assumption. rewrite IH by (cbn in Hf; lia). reflexivity.
+Qed.
+Print Assumptions c10_search_collects.
